@@ -6,6 +6,7 @@
     `char::to_lowercase` / `char::to_uppercase` change; `casetab cased|ignorable` → the ranges
     `a-b,…` — compared with the installed toolchain on every run
   * `calc <args list>` → `Q <num>/<den>` | `APPROX` | `ERR` | `unmodelled`
+  * `f64bits <text>` → the 16 hex digits of `str::parse::<f64>(text)?.to_bits()` | `NAN` | `ERR`
 -/
 import DuckModel.Wire
 import DuckModel.Sdk.Strings
@@ -40,6 +41,16 @@ def encAns : Calc.Ans → String
   | .approx => "APPROX"
   | .unmodelled => "unmodelled"
 
+def hex16 (n : Nat) : String :=
+  String.ofList ((List.range 16).reverse.map fun i => hexDigit ((n / 16 ^ i) % 16))
+
+def encBits (s : Str) : String :=
+  match F64.parseF64 s with
+  | Option.none => "ERR"
+  | some x => match x.bits with
+    | Option.none => "NAN"
+    | some b => hex16 b
+
 def handle (toks : List String) : Option String :=
   match toks with
   | ["str", cmd, args] =>
@@ -50,6 +61,10 @@ def handle (toks : List String) : Option String :=
   | ["casetab", "upper"] => some (encMap UCase.upperMap)
   | ["casetab", "cased"] => some (encRanges UCase.casedRanges)
   | ["casetab", "ignorable"] => some (encRanges UCase.caseIgnorableRanges)
+  | ["f64bits", t] =>
+    match decStr t with
+    | some a => some (encBits a)
+    | none => some "BAD-REQUEST"
   | ["calc", args] =>
     match decList args with
     | some a => some (encAns (Calc.calcCmd a))
